@@ -285,6 +285,9 @@ pub mod openssl {
                 ensures r is Ok ==> final(self).view@ == (NameView { by_nid: old(self).view@.by_nid.push((n, v@)), ..old(self).view@ }) { unimplemented!() }
             #[verifier::external_body]
             pub fn append_entry_by_text(&mut self, k: &str, v: &str) -> (r: Result<(), ErrorStack>)
+                // OpenSSL refuses a name entry longer than its upper bound (64 for O, OU, CN: RFC 5280 ub-common-name ...): a value whose
+                // length depends on the input would make the whole certificate fail for some inputs
+                requires v@.len() <= 64, //@C16.name_entries_fit_whatever_the_domain
                 ensures r is Ok ==> final(self).view@ == (NameView { by_text: old(self).view@.by_text.push((k@, v@)), ..old(self).view@ }) { unimplemented!() }
             #[verifier::external_body]
             pub fn build(self) -> (r: X509Name) ensures r.view == self.view { unimplemented!() }
